@@ -29,7 +29,8 @@ CHECKS = {
         text="Coq theorems for all token trees (without $# / implicit *): convert equals a pure unrolling spec with a budget "
              "(C02_limit_full, closed form of maxRepeat), exactly N consecutive copies indexed in order, counters of the nearest "
              "enclosing repeated unit, numbering value incl. reverse-with-base, zero padding width, tokenization of every $..$@-M form, "
-             "budget step/exhausted/enough lemmas. Independent oracle computes the expected forest from the abbreviation AST and "
+             "budget step/exhausted/enough lemmas; every tree the parser returns on tokenizer output free of `$#` / bare `*` is in "
+             "that domain (parser_output_clean), and the closed form extends to implicit repeaters with wrap text. Independent oracle computes the expected forest from the abbreviation AST and "
              "compares with a tag parse of expand() output; extracted spec and model compared with the implementation.",
         technique="Coq proof by structural induction over token trees (converter vs unrolling spec with budget) + numbering arithmetic lemmas + model/implementation correspondence and AST oracle",
         ref="DESIGN.md §5 C02"),
@@ -47,8 +48,9 @@ CHECKS = {
         ref="DESIGN.md §5 C03"),
     'C04': dict(
         text="Coq theorems: text_literal for ALL brace-balanced payloads (tokenize+parse+convert of name{T} gives [unescape T]), "
-             "placeholder totality, group brackets, wrap_plain for all trees and texts, wrap text on leaves and (partial: state-purity "
-             "assumption, no nested repeaters) implicit-repeater wrap, text reaches the stream verbatim split only at CR/LF/CRLF, "
+             "placeholder totality, group brackets, wrap_plain for all trees and texts, and the implicit-repeater wrap clause IN FULL "
+             "(props/C04Wrap.v: convert equals a pure spec for every token tree incl. nested explicit/implicit repeaters and `$#` at "
+             "any depth, every line list, every budget; from the abbreviation text itself), text reaches the stream verbatim split only at CR/LF/CRLF, "
              "children after text; attribute values are the written text character for character (quoted, unquoted with balanced "
              "parentheses, expression), a[b=(c)] end to end, text on elements with attributes through expand. Independent oracle over "
              "the whole punctuation alphabet and wrap-line lists.",
